@@ -91,7 +91,7 @@ def parse_output(out):
     m = re.search(r"Verification Time: ([0-9.]+)s", out)
     if m:
         res["verify_s"] = float(m.group(1))
-    res["stubs_applied"] = re.findall(r"- Stub: (\S+) -> (\S+)", out)
+    res["stubs_applied"] = [(a.replace(" ", ""), b) for a, b in re.findall(r"- Stub: (.+?) -> (\S+)", out)]
     for m in CHECK_RE.finditer(out):
         _, cname, status, desc, loc = m.groups()
         res["n_checks"] += 1
